@@ -1176,13 +1176,18 @@ pub fn parse(lex_tokens: &Vec<LexerToken>) -> Result<ParseResult, CompilerError>
                             // the group is empty only if the node it expected on its right was never created
                             // (last left can also be the group itself after a finished side effect block inside it)
                             let empty_group = left == ended_group && left_node.right == Some(current_id);
-                            if left_node.definition.is_optional() || empty_group {
+                            // an infix identifier may end a group as well, its expected right operand was never created
+                            let unfilled_optional = left_node.secondary_definition == SecondaryDefinition::OptionalBinaryLeftToRight
+                                && left_node.right == Some(current_id);
+                            if left_node.definition.is_optional() || empty_group || unfilled_optional {
                                 left_node.right = None;
                             }
 
                             // if its a subexpression with no right
                             // it was at the end of the expression and should be dropped
-                            if left_node.definition == Definition::Subexpression && left_node.get_right() == Some(current_id) {
+                            if (left_node.definition == Definition::Subexpression || left_node.definition == Definition::ExpressionSeparator)
+                                && left_node.get_right() == Some(current_id)
+                            {
                                 // set the subexpression's left's parent to its parent
                                 let new_parent = left_node.get_parent();
                                 let l = left_node.get_left();
